@@ -237,6 +237,37 @@ func TestC05(t *testing.T) {
 		})
 	}
 
+	// (b0) hand-built behaviour: a service without arguments that becomes contextual only through the dependency of a
+	// decorator on one of its tags, with two and three decorators in every declaration order
+	if ev.Mine(0) {
+		var c behCase
+		decs := []cfg.Decorator{
+			{Tag: "t1", Fn: "fx/lib.Decorate", Args: []cfg.Val{cfg.Str("@ctx")}},
+			{Tag: "t2", Fn: "fx/lib.Decorate"},
+			{Tag: "t3", Fn: "fx/lib.Decorate", Args: []cfg.Val{cfg.Str("x")}},
+		}
+		for _, order := range [][]int{{0, 1}, {1, 0}, {0, 1, 2}, {2, 1, 0}, {1, 0, 2}, {0, 2, 1}, {0}} {
+			conf := cfg.Config{Meta: cfg.Meta{Pkg: sp("app")}, Services: []cfg.Service{
+				{Name: "ctx", Ctor: sp("fx/lib.NewObj"), Scope: sp("contextual")},
+				{Name: "a", Ctor: sp("fx/lib.NewObj"), Tags: []cfg.Tag{{Name: "t1"}}},
+				{Name: "b", Ctor: sp("fx/lib.NewObj"), Tags: []cfg.Tag{{Name: "t2"}}},
+				{Name: "ab", Ctor: sp("fx/lib.NewObj"), Tags: []cfg.Tag{{Name: "t2"}, {Name: "t1"}, {Name: "t3"}}},
+				{Name: "user", Ctor: sp("fx/lib.NewObj"), Args: []cfg.Val{cfg.Str("@a"), cfg.Str("@b")}},
+			}}
+			for _, i := range order {
+				conf.Decorators = append(conf.Decorators, decs[i])
+			}
+			var ops []fx.Op
+			for _, ctx := range []string{"A", "B", "A", ""} {
+				for _, n := range []string{"a", "b", "ab", "user", "ctx"} {
+					ops = append(ops, fx.Op{Op: "get", ID: n, Ctx: ctx})
+				}
+			}
+			c.Members = append(c.Members, behMember{Files: []cfg.Config{conf}, Script: fx.Script{Ops: ops}, Labels: []string{"hand-built:contextual-through-a-decorator", fmt.Sprintf("decorators:%d", len(order))}})
+		}
+		behBatch(t, c, c05NonTrivial, c05Check, nil)
+	}
+
 	// (b) behaviour: histories of Get / GetInContext / GetTaggedBy on accepted configurations
 	batch := pick(20, 32)
 	setRapidChecks(pick(5, 50))
